@@ -120,7 +120,8 @@ impl<'a, R: BufRead> Asc2DltMsgIterator<'a, R> {
 
     fn timestamp_dms_from(&self, timestamp_us: i64) -> u32 {
         if timestamp_us >= 0 {
-            self.timestamp_offset_dms + ((timestamp_us / 100) as u32)
+            self.timestamp_offset_dms
+                .saturating_add((timestamp_us / 100) as u32)
         } else if self.timestamp_offset_dms > 0 {
             self.timestamp_offset_dms
                 .saturating_sub((-timestamp_us / 100) as u32)
